@@ -219,6 +219,34 @@ with nofn_c (cs : cases) : bool :=
 Definition no_fn_stmtb (p : program) : bool := nofn_l (p_body p).
 Definition no_fn_stmt (p : program) : Prop := no_fn_stmtb p = true.
 
+(* A finer condition than `no_fn_stmt`: the places where the current code can go wrong through the function-start key.
+   A statement that STARTS with a function (`function g(){}`, `() => {};`) gets the function's end recorded under its
+   own key; that entry is read back by `if .. else ..` about its branches, by `while` / `do-while` / `for(;;)` about
+   the loop body, and by no-fallthrough about the top-level statements of a switch case.  `fnsafe`: no such statement
+   stands in one of these positions (function declarations in ordinary statement lists are fine). *)
+Definition is_fnstart (s : stmt) : bool :=
+  match s with SFnDecl _ _ _ _ | SArrowStmt _ _ _ => true | _ => false end.
+Fixpoint no_fnstart_top (l : stmts) : bool :=
+  match l with SNil => true | SCons s r => negb (is_fnstart s) && no_fnstart_top r end.
+Fixpoint fnsafe (s : stmt) : bool :=
+  match s with
+  | SFnDecl _ _ _ b | SArrowStmt _ _ b | SGetterStmt _ _ _ b | SBlock _ b => fnsafe_l b
+  | SIf _ _ a => fnsafe a
+  | SIfElse _ _ a b => negb (is_fnstart a) && negb (is_fnstart b) && fnsafe a && fnsafe b
+  | SWhile _ _ b | SDoWhile _ b _ | SFor _ _ b => negb (is_fnstart b) && fnsafe b
+  | SForIn _ b | SForOf _ b | SLabel _ _ b => fnsafe b
+  | SForHead _ _ _ _ hb b => fnsafe_l hb && fnsafe b
+  | SSwitch _ cs => fnsafe_c cs
+  | STry _ _ blk _ hb _ fb => fnsafe_l blk && fnsafe_l hb && fnsafe_l fb
+  | _ => true
+  end
+with fnsafe_l (l : stmts) : bool :=
+  match l with SNil => true | SCons s r => fnsafe s && fnsafe_l r end
+with fnsafe_c (cs : cases) : bool :=
+  match cs with CNil => true | CCons _ _ _ b r => no_fnstart_top b && fnsafe_l b && fnsafe_c r end.
+Definition fn_stmt_safeb (p : program) : bool := fnsafe_l (p_body p).
+Definition fn_stmt_safe (p : program) : Prop := fn_stmt_safeb p = true.
+
 Definition is_none {A} (o : option A) : bool := match o with None => true | Some _ => false end.
 Fixpoint has_default (cs : cases) : bool :=
   match cs with CNil => false | CCons _ t _ _ r => is_none t || has_default r end.
